@@ -454,6 +454,14 @@ static Verdict runInner(const Case& c)
       std::vector<VarStatus> br(m), bc(n);
       sm2.getBasis(br.data(), bc.data(), m, n);
       std::string b = basisCheck(lp, br.data(), bc.data());
+      // known finding postsolve-basis-count: in about 1 of 40000 presolve-rich LPs the postsolved basis has m + 1 basic
+      // variables (seen after a row singleton whose sides differ by rounding residues, and after a doubleton aggregation
+      // next to a duplicate row); present on the unfixed tree as well. Signature: exactly this basis-count message
+      if(!b.empty() && b.find("basic variables for") != std::string::npos && knownKey("postsolve-basis-count"))
+      {
+         e.count("excluded_known.postsolve-basis-count");
+         continue;
+      }
       if(!b.empty())
       {
          v.fail("postsolved basis (vertex " + std::to_string(k) + "): " + b);
